@@ -619,7 +619,10 @@ class Engine:
         return done
 
     def run_sub(self, st, body, args, depth):
-        """run `body` to completion on a fork of st; -> [(state, return value)] (panicking paths go to _ended)"""
+        """run `body` to completion on a fork of st; -> [(state, return value)] (panicking paths go to _ended).
+        args[0] is the callable itself (a closure literal is its own environment argument; a fn item takes none)"""
+        if args and isinstance(args[0], tuple) and args[0] and args[0][0] == "fn":
+            args = args[1:]
         s0 = st.fork()
         nf = self.push_frame(s0, body, None, "STOP", depth, None)
         self.bind_args(s0, nf, body, args, closure_call=False)
@@ -1357,6 +1360,29 @@ def m_saturating_sub(eng, st, fr, fn, args, t):
     return _ret(st, ("bin", "Sub", ("max", args[0], args[1]), args[1], ty))
 
 
+PUSH_FN = {"id": "alloc::vec::{impl#1}::push", "path": "alloc::vec::Vec::<T, A>::push", "name": "push", "krate": "alloc",
+           "substs": [], "impl_self": "alloc::vec::Vec<T, A>"}
+
+
+def m_vec_extend(eng, st, fr, fn, args, t):
+    """Vec::extend(&mut v, option): pushes the payload when the option is Some, nothing otherwise"""
+    tys = t.get("arg_tys") or []
+    if len(args) != 2 or len(tys) < 2 or not tys[1].startswith("core::option::Option<") or args[0][0] != "ref":
+        return None
+    out = []
+    for (s2, var, payload) in _fork_option(eng, st.fork(), args[1]):
+        if var == "Some":
+            descs = (eng.arg_desc(s2, args[0]), payload)
+            res = ("call", PUSH_FN["path"], descs, s2.seq)
+            s2.events.append({"kind": "call", "callee": PUSH_FN["path"], "fn": PUSH_FN, "args": [args[0], payload], "descs": descs,
+                              "site": t.get("span"), "seq": s2.seq, "result": res, "depth": fr.depth, "body": fr.body["id"]})
+            s2.seq += 1
+            old = eng.read_loc(s2, args[0][1], args[0][2])
+            eng.write_loc_quiet(s2, args[0][1], args[0][2], ("after", res, 0, old))
+        out.append((s2, ("agg", "tuple", None, None, ())))
+    return out
+
+
 def m_checked_sub(eng, st, fr, fn, args, t):
     """unsigned a.checked_sub(b): None when a < b, else Some(a - b)"""
     ty = None
@@ -1594,6 +1620,7 @@ DEFAULT_MODELS = {
     "core::option::Option::<T>::unwrap_or_else": m_opt_unwrap_or_else,
     "core::option::Option::<T>::map_or": m_opt_map_or,
     "core::result::Result::<T, E>::unwrap_or_else": m_res_unwrap_or_else,
+    "<alloc::vec::Vec<T, A> as core::iter::traits::collect::Extend<T>>::extend": m_vec_extend,
     "core::num::<impl usize>::checked_sub": m_checked_sub,
     "core::num::<impl u32>::checked_sub": m_checked_sub,
     "core::num::<impl u64>::checked_sub": m_checked_sub,
